@@ -4,7 +4,7 @@ import os
 from jugverif import core, execchecks as X, execengine as E
 
 LEVEL = 'proof'
-THEOREMS = ['Jug.C02.mutex_run', 'Jug.C02.mutex_cs', 'Jug.C02.no_rerun_once_stored', 'Jug.C02.result_stable', 'Jug.C02.publish_before_release',
+THEOREMS = ['Jug.C02.at_most_once_general', 'Jug.C02.at_most_once_uninterrupted', 'Jug.C02.mutex_run', 'Jug.C02.mutex_cs', 'Jug.C02.no_rerun_once_stored', 'Jug.C02.result_stable', 'Jug.C02.publish_before_release',
             'Jug.C02.at_most_once', 'Jug.C02.stored_never_started', 'Jug.C02.exactly_once_if_stored']
 
 
